@@ -1,6 +1,7 @@
-From Coq Require Import List Arith.
+From Coq Require Import List Arith ZArith.
 Import ListNotations.
 From UJ Require Import Engine.Engine Base.Graph Cache.Prune Cache.Transform Cache.TransformProofs.
+From UJ Require Import Cache.Logical Cache.Link Cache.Minimal Cache.Refine.
 
 (** The physical plan is self-contained: every store write call of the pruned plan has its store literal
     and the value as arguments inside the plan ... *)
@@ -34,3 +35,55 @@ Theorem C14_physical_acyclic :
   forall es p c, tctx p c es -> acyclic (to_graph p) -> acyclic (to_graph (add_all p c es)).
 Proof. exact transform_acyclic. Qed.
 Print Assumptions C14_physical_acyclic.
+
+(** The physical plan a (dry) run returns is faithful to the stale check: for the plan, registry, store state,
+    fresh_time and output of the run,
+    - a call of the user's plan is in the physical plan iff the logical model says its function runs,
+    - the write call of a stored entry is in it iff that store is (re)written,
+    - the read call of an entry is in it iff that store is read
+    ([src_no_args]: a registered source is a call with no arguments, as registry.source creates it). *)
+Theorem C14_physical_calls_faithful :
+  forall (reg : registry) (sg : sstate) (fresh : option Z) (output : option nat) (p : plan),
+  wf_plan p -> (forall (i : nat) (e : rentry), reg i = Some e -> i < length p) ->
+  (forall o : nat, output = Some o -> o < length p) ->
+  forall (i : nat) (nd : node), nth_error p i = Some nd -> is_call nd = true ->
+  (In i (Graph.pnodes (fst (physical (to_pgraph p) (length p)
+                              (entries_of reg (is_stale reg sg fresh p) (length p)) output)))
+   <-> is_exec reg sg fresh output p i = true).
+Proof. exact refine_exec. Qed.
+Print Assumptions C14_physical_calls_faithful.
+
+Theorem C14_physical_writes_faithful :
+  forall (reg : registry) (sg : sstate) (fresh : option Z) (output : option nat) (p : plan),
+  wf_plan p -> (forall (i : nat) (e : rentry), reg i = Some e -> i < length p) ->
+  forall (e : entry) (ce : nat),
+  In (e, ce) (entry_ids (length p) (entries_of reg (is_stale reg sg fresh p) (length p))) ->
+  esource e = false ->
+  (estale e = true /\
+   In (write_id ce) (Graph.pnodes (fst (physical (to_pgraph p) (length p)
+                                         (entries_of reg (is_stale reg sg fresh p) (length p)) output)))
+   <-> is_written reg sg fresh p (enode e) = true).
+Proof. exact refine_written. Qed.
+Print Assumptions C14_physical_writes_faithful.
+
+Theorem C14_physical_reads_faithful :
+  forall (reg : registry) (sg : sstate) (fresh : option Z) (output : option nat) (p : plan),
+  wf_plan p -> (forall (i : nat) (e : rentry), reg i = Some e -> i < length p) ->
+  (forall o : nat, output = Some o -> o < length p) ->
+  forall (e : entry) (ce : nat),
+  src_no_args reg p ->
+  In (e, ce) (entry_ids (length p) (entries_of reg (is_stale reg sg fresh p) (length p))) ->
+  (In (read_id ce) (Graph.pnodes (fst (physical (to_pgraph p) (length p)
+                                        (entries_of reg (is_stale reg sg fresh p) (length p)) output)))
+   <-> is_read reg sg fresh output p (enode e) = true).
+Proof. exact refine_read. Qed.
+Print Assumptions C14_physical_reads_faithful.
+
+(** Hence the executable link check that the harness evaluates on every generated case is empty for every case. *)
+Theorem C14_link_always_holds :
+  forall (reg : registry) (sg : sstate) (fresh : option Z) (output : option nat) (p : plan),
+  wf_plan p -> (forall (i : nat) (e : rentry), reg i = Some e -> i < length p) ->
+  (forall o : nat, output = Some o -> o < length p) ->
+  src_no_args reg p -> link_mismatches reg sg fresh output p = nil.
+Proof. exact link_mismatches_nil. Qed.
+Print Assumptions C14_link_always_holds.
